@@ -26,6 +26,7 @@ RULE = (
     "call's result must equal its baseline and every argument object must be deep-equal to its pre-call copy (except a "
     "caller-supplied named_schemas dict). Independently of merging, ALL ordered pairs (quick) / triples over the "
     "state-changing and colliding calls (thorough) are executed. states = distinct snapshots, transitions = calls applied."
+    ' Calls include load_schema over a diamond of files and three pairs of calls that differ only in whether the readers / block_readers / Writers they create are alive at the same time (their baselines must agree).'
 )
 ASSUMPTIONS = [
     "in pure-Python mode all library state lives in module globals, function defaults/closures, class attributes and the objects handed in; the snapshot covers these, and the all-pairs pass does not rely on the snapshot at all",
